@@ -312,6 +312,17 @@ def replay_state(state):
     for v in pyvals:
         obs["calls"].append(_obs_call(el, v, skip=skip))
     obs["np"] = _obs_call(el, NotPassed(), skip=skip)
+    # a model class is also used through a subclass that adds nothing: the same document
+    # describes it, so its results answer to the same reference predicates
+    from statham.schema.elements.meta import ObjectMeta
+    if isinstance(el, ObjectMeta):
+        try:
+            ns = {"Parent": el}
+            exec("class Child(Parent):\n    pass\n", ns)  # noqa: S102
+            child = ns["Child"]
+            obs["sub_calls"] = [_obs_call(child, v, skip=drive.default_ids(child)) for v in pyvals]
+        except Exception as exc:  # noqa
+            obs["sub_err"] = type(exc).__name__ + ": " + str(exc)[:120]
     edef = getattr(el, "default", NotPassed())
     if isinstance(edef, NotPassed):
         obs["edef"] = codec.NotPassedMarker()
